@@ -130,10 +130,14 @@ def check_tadd(P, R, tu):
     okc = False
     for x in conds:
         for c in walk(x["c"][0]):
-            if c.get("k") == "BinaryOperator" and c.get("op") in ("<", ">=") and const_of(c["c"][1]) == 86400:
-                l = strip(c["c"][0])
-                if l is not None and l.get("k") == "MemberExpr" and l.get("n") == "rem":
-                    okc = True
+            if c.get("k") == "BinaryOperator" and c.get("op") in ("<", ">=", ">", "<="):
+                # remainder against the length of a day, written either way round
+                for a_, b_, ops in ((c["c"][0], c["c"][1], ("<", ">=")), (c["c"][1], c["c"][0], (">", "<="))):
+                    l = strip(a_)
+                    while l is not None and l.get("k") in CASTS and l.get("c"):
+                        l = strip(l["c"][0])
+                    if c.get("op") in ops and const_of(b_) == 86400 and l is not None and l.get("k") == "MemberExpr" and l.get("n") == "rem":
+                        okc = True
     if others <= 1 and okc:
         R.ob(rule, "dt_tadd_s: the leap-second-day path is taken only for a remainder >= 86400 (corr > 0)", True)
     else:
